@@ -4,3 +4,4 @@ pub mod mconst;
 pub mod blake2b;
 pub mod bind;
 pub mod interp;
+pub mod bext;
